@@ -9,10 +9,22 @@ Init == cur \in [rel : Rels, dur : Durs] /\ last = None
 RoundAct(o) == last' = [op |-> "round", rel |-> cur.rel, dur |-> cur.dur, o |-> o, out |-> RoundRel(cur.rel, cur.dur, o.lg, o.sm, o.inc, o.mode)] /\ UNCHANGED cur
 TotalAct(u) == last' = [op |-> "total", rel |-> cur.rel, dur |-> cur.dur, u |-> u, out |-> TotalRel(cur.rel, cur.dur, u)] /\ UNCHANGED cur
 CmpAct(b) == last' = [op |-> "compare", rel |-> cur.rel, dur |-> cur.dur, b |-> b, out |-> CompareRel(cur.rel, cur.dur, b)] /\ UNCHANGED cur
+\* day-and-time-only durations that lead to the same end point as D from rel, and to the days just before and after it:
+\* comparing D with them pins the calendar part of D down to the day (equal / one day less / one day more)
+NearDays(rel, D) ==
+  LET tg == TargetOf(rel, D)
+  IN IF tg.kind # "ok" THEN {}
+     ELSE LET n == DFC(tg.val.date) - DFC(rel)
+              tns == TimeNsOf(tg.val.time)
+              \* for a negative duration the time part counts backwards from the following midnight
+              DayDur(k) == IF DurSign(D) >= 0 THEN Dur10(Zero, Zero, Zero, FromInt(n + k), Zero, Zero, Zero, Zero, Zero, tns)
+                       ELSE IF IsZero(tns) THEN Dur10(Zero, Zero, Zero, FromInt(n + k), Zero, Zero, Zero, Zero, Zero, Zero)
+                       ELSE Dur10(Zero, Zero, Zero, FromInt(n + 1 + k), Zero, Zero, Zero, Zero, Zero, Neg(Sub(DayNsBig, tns)))
+          IN {d \in {DayDur(-1), DayDur(0), DayDur(1)} : SignUniform(d)}
 Next == /\ (OneStep => last = None)
         /\ \/ \E o \in Opts : UnitLe(o.sm, o.lg) /\ RoundAct(o)
            \/ \E u \in TotalUnits : TotalAct(u)
-           \/ \E b \in Durs : CmpAct(b)
+           \/ \E b \in Durs \cup NearDays(cur.rel, cur.dur) : CmpAct(b)
 Spec == Init /\ [][Next]_vars
 
 IsRound == last.op = "round" /\ last.out.kind = "ok"
@@ -53,6 +65,9 @@ MultipleLaw == IsRound =>
 \* the identity (2019-12-31, -P29D, floor to weeks with largest year -> -P5W; re-measuring -P5W gives -P1M5D -> a different result).
 IdempotentRefuted == (IsRound /\ O.inc = 1) => RoundRel(last.rel, R, O.lg, O.sm, O.inc, O.mode) = last.out
 \* compare orders durations as the date-times they lead to; antisymmetric; consistent with totals in days
+NearLaw == (last.op = "compare" /\ last.out.kind = "ok" /\ last.b \in NearDays(last.rel, last.dur)) =>
+  \* the middle one of the three day-equivalents compares equal
+  (TargetOf(last.rel, last.b) = TargetOf(last.rel, last.dur)) = (last.out.val = 0)
 CompareLaw == (last.op = "compare" /\ last.out.kind = "ok") =>
   /\ CompareRel(last.rel, last.b, last.dur) = Ok(-last.out.val)
   /\ (last.out.val = 0) = (TargetOf(last.rel, last.dur) = TargetOf(last.rel, last.b))
